@@ -375,7 +375,7 @@ def c07(res, tier, deadline):
         "re-registration models a library reload: the record and its id lists are fresh"]
     d0, d1 = (5, 4) if tier == "quick" else (6, 5)
     runs = []
-    for tag in ("rel", "dbg", "int", "dfr", "map"):
+    for tag in ("rel", "dbg", "int", "dfr", "map", "ind", "dfh"):
         dd0, dd1 = (d0, d1) if tag in ("rel", "dfr") else (d0 - 1, d1 - 1)
         runs.append(Run(tag, "history", "", "C07", extra="depth=%d" % dd0,
                         label="%s/plain/history-from-empty" % tag))
